@@ -21,12 +21,80 @@ RULE = ("random automata / PDAs / FSTs with JSON-representable state and symbol 
         "to_text / from_text and compared by production sets and by the verified membership oracle; random EBNF texts "
         "whose boxes are compared, by the verified equivalence oracle, with the union of the alternatives of each "
         "head. Non-trivial: machine with >=2 states and >=2 transitions / grammar with >=2 productions.")
-EXPLANATION = 'Round trips are decided structurally (canonical form of the re-imported object equals that of the original) and, for grammars and recursive automata, by the verified membership / equivalence oracles; the networkx graph container and the json module are exercised, not modelled. No Lean theorem about the label codecs is claimed in this round.'
-THEOREMS = ["Pfl.CFG.cfgMem_iff",
+EXPLANATION = 'Round trips are decided structurally (canonical form of the re-imported object equals that of the original) and, for grammars and recursive automata, by the verified membership / equivalence oracles; the networkx graph container and the json module are exercised, not modelled. The token-level text codec of grammars (Variable.to_text, Terminal.to_text, the component classification of CFG._read_line) is modelled in Lean (Pfl/Model/Codec.lean), proved to round-trip every plain token (read_varToText, read_terToText) and compared with the implementation on random ASCII tokens.'
+THEOREMS = ["Pfl.Codec.read_varToText",
+            "Pfl.Codec.read_terToText",
+            "Pfl.Codec.read_capitalised_unmarked",
+            "Pfl.CFG.cfgMem_iff",
             "Pfl.Rx.thompson_lang",
             "Pfl.ENFA.langDiff_none_iff"]
 TOK_VARS = ["S", "A", "B", "x", "y", "aVar", "Zed"]
 TOK_TERS = ["a", "b", "c", "X", "Big", "t1"]
+
+
+TOK_PIECES = ['"', '"VAR:', '"TER:', "VAR", "TER", ":", "a", "b", "X", "Y", "z", "0", "#", "$", "epsilon", "_", "-", ".",
+              "(", "Q", "q"]
+EPS_SPELLINGS = ["epsilon", "$", "\u03b5", "\u03f5", "\u0404"]
+
+
+def gen_token(rng):
+    """whitespace-free ASCII token without the line syntax `|` and `->`"""
+    while True:
+        t = "".join(rng.choice(TOK_PIECES) for _ in range(rng.randint(1, 4)))
+        if "->" not in t and "|" not in t:
+            return t
+
+
+def is_special_token(t):
+    return len(t) > 5 and t[:5] in ('"VAR:', '"TER:') and t[-1] == '"'
+
+
+def read_token(tok):
+    """how CFG.from_text classifies one body component"""
+    g = CFG.from_text("S -> " + tok)
+    prods = list(g.productions)
+    if len(prods) != 1:
+        return ["?", str(prods)]
+    body = prods[0].body
+    if not body:
+        return ["e", ""]
+    if len(body) != 1:
+        return ["?", str(body)]
+    return ["v" if isinstance(body[0], Variable) else "t", body[0].value]
+
+
+def codec_tie(toks, drv, res):
+    from pyformlang.cfg import Terminal
+    model = drv.call("cfg.codec", toks=toks)
+    for tok, m in zip(toks, model):
+        res.corr += 3
+        vt, tt = outcome(lambda: Variable(tok).to_text()), outcome(lambda: Terminal(tok).to_text())
+        rd = outcome(lambda: read_token(tok))
+        if vt != ("ok", m["varText"]) or tt != ("ok", m["terText"]) or rd != ("ok", m["read"]):
+            broke = True
+        else:
+            broke = False
+        plain = not is_special_token(tok)
+        # the property itself, on the implementation: what to_text writes is read back as the same symbol
+        bad = None
+        if plain:
+            res.evals += 2
+            back_v = outcome(lambda: read_token(Variable(tok).to_text()))
+            if back_v != ("ok", ["v", tok]):
+                bad = ("variable", back_v)
+            if tok not in EPS_SPELLINGS:
+                back_t = outcome(lambda: read_token(Terminal(tok).to_text()))
+                if back_t != ("ok", ["t", tok]):
+                    bad = ("terminal", back_t)
+            res.tag("codec_plain")
+        else:
+            res.tag("codec_special")
+        if bad is not None:
+            res.violation("cfg.text", "a %s token is not read back as itself" % bad[0],
+                          detail={"token": tok, "read_back": bad[1]}, model_agrees=not broke)
+        elif broke:
+            res.corr_break("cfg.text", "token codec differs from the model",
+                           detail={"token": tok, "impl": [vt, tt, rd], "model": m})
 
 
 def generate(rng, tier):
@@ -53,7 +121,8 @@ def generate(rng, tier):
             lines.append([rng.choice(heads), X.render(ast, rng).replace("x1", rng.choice(heads))])
         if "S" not in [h for h, _ in lines]:
             lines.append(["S", "a"])
-        yield {"fa": fa, "pda": pda, "fst": fst, "g": g, "ebnf": lines}
+        toks = [gen_token(rng) for _ in range(4)]
+        yield {"fa": fa, "pda": pda, "fst": fst, "g": g, "ebnf": lines, "toks": toks}
 
 
 def run_case(case, drv):
@@ -121,6 +190,8 @@ def run_case(case, drv):
                 else:
                     res.violation("cfg.text", "round trip changes the productions (same words up to length 3)",
                                   detail={"text": cfg.to_text(), "before": g["prods"], "after": r["prods"]})
+    if case.get("toks"):
+        codec_tie(case["toks"], drv, res)
     # ---- recursive automata ----------------------------------------------------------------------
     lines = case["ebnf"]
     text = "\n".join("%s -> %s" % (h, b) for h, b in lines)
